@@ -121,6 +121,17 @@ fn main() {
         }
         eprintln!("subjgen: {} harvested definitions usable, {} taken from #{}", usable.len(), n_h, start);
     }
+    if from_replay.is_none() {
+        // definitions the tree must reject (C04 acceptance clause): compiled only when the tree under test accepts them
+        for sd in model::set::trap_defs() {
+            if let Ok(p) = prepare(&sd.def) {
+                eprintln!("subjgen: a str-mode definition with a pattern that can match part of a code point is accepted by this tree; compiled as a subject");
+                total_states += p.graph.states.len();
+                let twin = twin_ok(&sd.def);
+                defs.push(SubjectDef { twin, ..sd });
+            }
+        }
+    }
     let n_fixed = defs.len();
     while defs.len() < n_core + n_fixed && tries < n_core * 20 {
         tries += 1;
